@@ -596,6 +596,8 @@ class Sched(object):
         self.ident2tid = {}
         self.lock_blocks = 0
         self.op_switches = 0
+        self.tick = 0
+        self.last_run = [0] * self.n
         self.armed = [None] * self.n      # per thread: [frame, instructions left, switch_to, key, occ, n]
         self.mon = None
 
@@ -694,7 +696,21 @@ class Sched(object):
         self.state[tid] = RUNNABLE
         self._handover(tid, to)
 
+    def _runnable_fair(self, exclude=None):
+        """For a thread that yields because it has to WAIT (lock, condition, event, timed wait): the runnable
+        thread that has run least recently.  Two waiters polling with timed waits must not hand the baton to
+        each other for ever while the thread they wait for never runs (control nc9b-r3: a builder holding a
+        claim lock, two waiters looping on Event.wait(0.5))."""
+        best = None
+        for t in self.pref:
+            if t != exclude and self.state[t] in (NEW, RUNNABLE):
+                if best is None or self.last_run[t] < self.last_run[best]:
+                    best = t
+        return best
+
     def _handover(self, frm, to):
+        self.tick += 1
+        self.last_run[to] = self.tick
         self.state[to] = RUNNING
         self.park[to].release()
         self.park[frm].acquire()        # parked until somebody hands the baton back
@@ -702,7 +718,7 @@ class Sched(object):
 
     def block_on(self, tid, lock, timed=False):
         self.lock_blocks += 1
-        to = self._runnable(exclude=tid)
+        to = self._runnable_fair(exclude=tid)
         if to is None:
             if timed:
                 return                  # nobody can release it: the timed wait expires
